@@ -32,7 +32,7 @@ import tempfile
 from harness import gen
 from harness.core import REPO, VERIF, LaneBase, MachineryError, hx, hxedges, hxlist
 from harness.lanes import c18
-from harness.lanes.c18 import (POOLS, adjacency_edges, arg, build, call, canon, dag_case, default_pairs,
+from harness.lanes.c18 import (POOLS, pool_names, adjacency_edges, arg, build, call, canon, dag_case, default_pairs,
                                directed_paths, names_of, open_path, shrink_core, strict_anc, strict_desc)
 
 
@@ -164,7 +164,7 @@ def answers_for_items(items):
     identify_instruments / identify_mediators on every ordered pair of distinct nodes."""
     out = []
     for n, edges, pool in items:
-        names = POOLS[pool][:n]
+        names = pool_names(pool, n, edges)
         g = build(n, [tuple(e) for e in edges], names)
         head = f'{hxlist(names)} {hxedges(adjacency_edges(g))}'
         lines, replies = [], []
@@ -320,7 +320,7 @@ class Lane(c18.Lane):
                 impl += it['replies']
             n, edges, pool = items[k]
             edges = [tuple(e) for e in edges]
-            names = POOLS[pool][:n]
+            names = pool_names(pool, n, edges)
             prs = [(s, t) for s in range(n) for t in range(n) if s != t]
             # the property itself on the answers of the seed-0 interpreter
             g = build(n, edges, names)
@@ -354,7 +354,7 @@ class Lane(c18.Lane):
         c = dag_case(n, e, pool, pairs=[[int(s), int(t)]])
         if kind0 != 'hashseed':
             return c, kind0
-        names = POOLS[pool][:n]
+        names = pool_names(pool, n, e)
         for kind in ('mediators-break', 'mediators-endpoints'):
             if susceptible(kind, n, [tuple(x) for x in e], int(s), int(t), names):
                 return c, kind
